@@ -43,6 +43,8 @@ TYPES = {
     "probe": S.Probe,
     "opt_probe": Optional[S.Probe],
     "list_probe": List[S.Probe],
+    "dict_str_probe": Dict[str, S.Probe],
+    "tuple_probe_int": Tuple[S.Probe, int],
     "opt_D": Optional[S.D],
     "D": S.D,
     "DP": S.DP,
